@@ -44,7 +44,8 @@ def make_environ(method='GET', path='/', query='', headers=None, *, stream=None,
     if content_type is not None:
         env['CONTENT_TYPE'] = content_type
     if chunked:
-        env['HTTP_TRANSFER_ENCODING'] = 'chunked'
+        # chunked may be True or the spelling of the header value (e.g. 'gzip, chunked': chunked is the final coding)
+        env['HTTP_TRANSFER_ENCODING'] = chunked if isinstance(chunked, str) else 'chunked'
     if file_wrapper is not None:
         env['wsgi.file_wrapper'] = file_wrapper
     for k, v in (headers or {}).items():
